@@ -39,14 +39,14 @@ COMPONENTS = {
 }
 ASSUMPTIONS = [
     "the stamp line removed before comparison is exactly '// Generated using fcp <v> on <date> by <user>@<host>' as a full line",
-    "generators are called through Generator.generate (the manager / CLI path is C10's)",
+    "generators are called through Generator.generate; a quarter of the generations additionally go through GeneratorManager into an output directory the process keeps reusing, and what is compared is what is on disk at the returned paths",
     "a generate that raises is an outcome too: it must raise in the baseline as well",
 ]
 TIERS = {
     "quick": {"runs": 800, "chunk": 10, "wall": 100, "chunk_timeout": 400, "selftest": 4, "pool": 14},
     "thorough": {"runs": 8000, "chunk": 20, "wall": 800, "chunk_timeout": 900, "selftest": 8, "pool": 36},
 }
-EXPECTED_PROBES = {t: ["nonzero_hashseed", "generate_on_reused_tree", "generate_after_generate_same_tree", "cpp_with_services",
+EXPECTED_PROBES = {t: ["generated_through_manager_into_reused_dir", "nonzero_hashseed", "generate_on_reused_tree", "generate_after_generate_same_tree", "cpp_with_services",
                        "multi_protocol_schema", "clock_crossed_midnight", "after_parse_broken", "after_layout",
                        "listing_permuted", "two_generators_same_tree"] for t in TIERS}
 GENS = ["dbc", "can_c", "cpp", "nop"]
@@ -111,6 +111,20 @@ def edited_version(rng, decls):
     What a long-lived process sees when the user changes the schema and generates again."""
     import copy
     d = copy.deepcopy(decls)
+    if rng.random() < 0.5:
+        # an edit that keeps every generated file the same SIZE: ids bumped within the same number of digits, one field
+        # renamed to another word of the same length
+        for x in d:
+            if x["kind"] == "impl":
+                x["fields"] = [[k, (v + 1 if k == "id" and len(str(v + 1)) == len(str(v)) else v)] for k, v in x["fields"]]
+            elif x["kind"] == "struct":
+                used = {f["name"] for f in x["fields"]}
+                for f in x["fields"]:
+                    alt = [w for w in S.WORDS if len(w) == len(f["name"]) and w not in used]
+                    if alt:
+                        f["name"] = rng.choice(alt)
+                        break
+        return d
     for x in d:
         if x["kind"] == "enum":
             scale = rng.choice([3, 9, 40])
@@ -176,10 +190,10 @@ def run_worker(workload, hashseed):
 _BASE = {}
 
 
-def baseline(pool, g, sid, bodies=False):
-    key = (g, sid, pool[sid])
+def baseline(pool, g, sid, bodies=False, disk=False):
+    key = (g, sid, pool[sid], disk)
     if key not in _BASE or (bodies and "bodies" not in _BASE[key]):
-        w = {"schemas": {sid: pool[sid]}, "ops": [["generate", g, sid, False]], "clock0": 1_700_000_000,
+        w = {"schemas": {sid: pool[sid]}, "ops": [["generate", g, sid, False, disk]], "clock0": 1_700_000_000,
              "user": "simuser", "host": "simhost", "listperm": 0, "keep_bodies": bodies}
         _BASE[key] = run_worker(w, 0)["obs"][0]
     return _BASE[key]
@@ -188,9 +202,9 @@ def baseline(pool, g, sid, bodies=False):
 def prepare(seed, tier):
     """Pristine baselines for the whole pool, computed before the pool forks (children inherit them)."""
     pool = pool_for(seed, tier)
-    jobs = [(g, sid) for sid in sorted(pool) for g in ARTEFACTS]
+    jobs = [(g, sid, False) for sid in sorted(pool) for g in ARTEFACTS] + [(g, sid, True) for sid in sorted(pool) for g in GENS]
     with ThreadPoolExecutor(max_workers=min(16, os.cpu_count() or 2)) as ex:
-        list(ex.map(lambda j: baseline(pool, j[0], j[1]), jobs))
+        list(ex.map(lambda j: baseline(pool, j[0], j[1], disk=j[2]), jobs))
 
 
 # ---------------------------------------------------------------------------
@@ -220,7 +234,7 @@ def gen_run(rng, pool):
         sid = rng.choice(sids)
         k = weighted(rng, [("generate", 5)] + [(x, 1.0 if swarm[x] else 0.05) for x in sorted(swarm)])
         if k == "generate":
-            ops.append(["generate", rng.choice(ARTEFACTS), sid, rng.random() < 0.6])
+            ops.append(["generate", rng.choice(ARTEFACTS), sid, rng.random() < 0.6, rng.random() < 0.25])
         elif k == "clock":
             ops.append(["clock", rng.choice([1, 2, 59, 3600, 86400, 31_536_000])])
         elif k == "parse_broken":
@@ -268,8 +282,10 @@ def judge_run(pool, cfg, sids, ops, probes=None, tr=None, distinct=None):
     for ob in out["obs"]:
         oi = ob["op"]
         g, sid = ob["generator"], ob["schema"]
-        base = baseline(pool, g, sid)
+        base = baseline(pool, g, sid, disk=bool(ob.get("disk")))
         evals += 1
+        if ob.get("disk"):
+            probes["generated_through_manager_into_reused_dir"] += 1
         before = Counter(o[0] for o in ops[:oi])
         if cfg["hashseed"]:
             probes["nonzero_hashseed"] += 1
